@@ -212,6 +212,29 @@ def extra_rules(ctx):
                     'for it: the ungrouped columnar aggregate path filters with the extracted predicates only, so the conjunct is silently dropped '
                     '(COUNT(*) counts rows the WHERE clause excludes)', f'{ep.file}:{ep.blocks[bad[0]]["t"]["l"]}')
 
+    # ---------------------------------------------------------------- (null) columnar predicates never match NULL
+    ctx.rule('C06.null', 'select::columnar::filter::evaluate_predicate: a test of the value for SqlValue::Null, with `false` as the result on '
+             'that branch, dominates every compare_values call (compare_values reports incomparable values as Equal)')
+    evp = ctx.fn(EX + 'select::columnar::filter::evaluate_predicate')
+    ge = cfg(evp)
+    sye = Sym(evp)
+    cmps = [i for i, t in evp.calls() if (callee_name(t) or '').endswith('::compare_values')]
+    ctx.floor('C06.null compare_values calls in evaluate_predicate', len(cmps), 5)
+    nullsw = []
+    for bi, b in enumerate(evp.blocks):
+        t = b['t']
+        if t['k'] != 'switch':
+            continue
+        c = shared.switch_condition(evp, bi, sye)
+        if c == 'discr(value)':
+            nullsw.append(bi)
+    ok = any(all(ge.dominates(sw, cb) for cb in cmps) for sw in nullsw)
+    ctx.instance('null/evaluate_predicate', {'rule': 'C06.null', 'null_tests_on_value': len(nullsw), 'dominates_all_comparisons': ok})
+    if not ok:
+        ctx.finding('null/evaluate_predicate', 'evaluate_predicate compares a possibly NULL column value with compare_values (which answers Equal '
+                    'for values it cannot compare) without testing for NULL first: =, <=, >= and BETWEEN are TRUE for NULL rows on the '
+                    'columnar aggregate path', evp.loc)
+
     # ---------------------------------------------------------------- (range) bound and inclusiveness travel together
     from .C02 import range_pairing_rule
     range_pairing_rule(ctx, 'C06.range')
